@@ -278,7 +278,7 @@ func spatialIndex(r *core.Run) {
 			var vals []string
 			for i := 0; i < n; i++ {
 				var g geom
-				kindDraw := rnd.Intn(6)
+				kindDraw := rnd.Intn(9)
 				if pointsOnly {
 					kindDraw = 0
 				}
@@ -293,8 +293,31 @@ func spatialIndex(r *core.Run) {
 					}
 				case 4:
 					g = geom{kind: kLine, pts: []pt{c(), c()}}
-				default:
+				case 5:
 					g = geom{kind: kMPoint, parts: []geom{{kind: kPoint, pts: []pt{c()}}, {kind: kPoint, pts: []pt{c()}}}}
+				case 6:
+					g = geom{kind: kMLine, parts: []geom{{kind: kLine, pts: []pt{c(), c()}}, {kind: kLine, pts: []pt{c(), c(), c()}}}}
+				default:
+					// geometry collections (also nested): their bounding box is the union of the members' boxes, in
+					// whatever order the members come
+					mk := func() geom {
+						switch rnd.Intn(3) {
+						case 0:
+							return geom{kind: kPoint, pts: []pt{c()}}
+						case 1:
+							return geom{kind: kLine, pts: []pt{c(), c()}}
+						}
+						p := c()
+						return box(p[0], p[1], p[0]+rnd.Float64()*5, p[1]+rnd.Float64()*5)
+					}
+					parts := []geom{mk(), mk()}
+					if rnd.Intn(2) == 0 {
+						parts = append(parts, mk())
+					}
+					if rnd.Intn(4) == 0 {
+						parts = append(parts, geom{kind: kColl, parts: []geom{mk(), mk()}})
+					}
+					g = geom{kind: kColl, parts: parts}
 				}
 				vals = append(vals, fmt.Sprintf("(%d, %s)", i, fromText(g, srid)))
 			}
